@@ -46,7 +46,7 @@ func init() {
 				if x.IsConst() {
 					return fmt.Sprint(x.IsTrue())
 				}
-				return &SymStr{parts: []interface{}{symPart{"%t", x}}}
+				return &SymStr{parts: []interface{}{symPart{verb: "%t", t: x}}}
 			}
 			if x.IsConst() {
 				if _, signed, _ := intWidth(v.t); signed {
@@ -54,7 +54,7 @@ func init() {
 				}
 				return fmt.Sprint(x.Uint64())
 			}
-			return &SymStr{parts: []interface{}{symPart{"%d", x}}}
+			return &SymStr{parts: []interface{}{symPart{verb: "%d", t: x}}}
 		}
 		return ""
 	}
